@@ -443,6 +443,7 @@ def run(ctx):
             walk_body(ctx), ctx.pick(300, 6000))
     run_dfs(ctx, True, ctx.pick(11, 13))
     run_dfs(ctx, False, ctx.pick(12, 14))
+    validate_real_traces(ctx, ctx.pick(12, 150))
 
 
 def replay(ctx, check, case):
@@ -451,3 +452,116 @@ def replay(ctx, check, case):
     else:
         env, _ = run_trace(case['moves'], case['warm'], lenient=False)
     return env.error
+
+
+# ---- cross-validation: real call sequences must be words of the automaton -----------------------
+
+def _abs_moves(s, lo, hi):
+    '''Token-free copy of Env.moves/_apply over a tuple state
+    (D, S, d, P, bp, rn, caught_up, mp, started, fork, delivered, must_start).
+    Yields (new_state, emitted) with emitted = None | ('on_block', h) | ('on_mempool', h) |
+    ('start', h).  Depth / step bounds of the exploration automaton are kept except the height
+    window, which is taken from the trace.'''
+    D, S, d, P, bp, rn, cu, mp, started, fork, delivered, must = s
+    if must:
+        yield (D, S, d, P, bp, rn, cu, mp, True, fork, delivered, False), ('start', d)
+        if bp == 'pending':
+            yield from _abs_report(s)
+        return
+    if D < hi:
+        yield (D + 1, S, d, P, bp, rn, cu, mp, started, fork, delivered, must), None
+    if cu and fork == 0 and bp != 'reorg':
+        for r in (1, 2):
+            if S - r >= lo and max(D, S) + 1 <= hi:
+                yield (max(D, S) + 1, S, d, P, bp, rn, cu, mp, started, r, delivered, must), None
+    if bp in ('idle', 'work'):
+        nbp = 'work' if (D > S or fork) else 'pending'
+        yield (D, S, d, D, nbp, rn, cu, mp, started, fork, delivered, must), None
+        if cu and fork == 0:
+            for n in (1, 2):
+                if S - n >= lo:
+                    yield (D, S, S, P, 'reorg', n, cu, mp, started, fork, delivered, must), None
+    if bp == 'work':
+        if fork:
+            yield (D, S, S, P, 'reorg', fork, cu, mp, started, 0, delivered, must), None
+        elif S < P:
+            yield (D, S + 1, d, P, bp, rn, cu, mp, started, fork, delivered, must), None
+            yield (D, S + 1, S + 1, P, bp, rn, cu, mp, started, fork, delivered, must), None
+    if bp == 'reorg':
+        nrn = rn - 1
+        yield (D, S - 1, S - 1, P, 'idle' if nrn == 0 else 'reorg', nrn, cu, mp, started, fork,
+               delivered, must), None
+    if bp == 'pending':
+        yield from _abs_report(s)
+    if cu and mp is None and d == D:
+        yield (D, S, d, P, bp, rn, cu, D, started, fork, delivered, must), None
+    if mp is not None:
+        nd = True
+        yield (D, S, d, P, bp, rn, cu, None, started, fork, nd, (not delivered)), ('on_mempool', mp)
+
+
+def _abs_report(s):
+    D, S, d, P, bp, rn, cu, mp, started, fork, delivered, must = s
+    if cu:
+        yield (D, S, S, P, 'idle', rn, cu, mp, started, fork, delivered, must), ('on_block', S)
+    else:
+        yield (D, S, S, P, 'idle', rn, True, mp, started, fork, delivered, must), None
+
+
+def accepts(trace):
+    '''trace = [(method, height)] with method in on_block / on_mempool / start.  True when some
+    run of the automaton emits exactly this sequence.'''
+    if not trace:
+        return True
+    heights = [h for _, h in trace]
+    lo, hi = min(heights) - 3, max(heights) + 1
+    first = heights[0]
+    frontier = set()
+    for S in range(max(lo, first - 3), first + 1):
+        for D in range(S, min(hi, first + 1) + 1):
+            frontier.add((D, S, S, D, 'work', 0, False, None, False, 0, False, False))
+            frontier.add((D, S, S, D, 'idle', 0, True, None, False, 0, False, False))
+    for want in trace:
+        # epsilon closure
+        seen = set(frontier)
+        stack = list(frontier)
+        nxt = set()
+        while stack:
+            st_ = stack.pop()
+            for ns, emitted in _abs_moves(st_, lo, hi):
+                if emitted is None:
+                    if ns not in seen:
+                        seen.add(ns)
+                        stack.append(ns)
+                elif emitted == want:
+                    nxt.add(ns)
+        if not nxt:
+            return False
+        frontier = nxt
+    return True
+
+
+def validate_real_traces(ctx, n_machines):
+    '''Run C07's whole-system machine on generated cases and check every recorded sequence of
+    calls into Notifications for acceptance by the automaton.'''
+    from pbt.checks import c07
+    accepted = rejected = 0
+    examples = []
+
+    def body(case):
+        nonlocal accepted, rejected
+        msg, sig, info = c07.run_case(ctx.scratch, case)
+        trace = [(m, h) for m, h, n in info.get('traces', []) if m != 'notify']
+        if msg or not trace:
+            return
+        if accepts(trace):
+            accepted += 1
+        else:
+            rejected += 1
+            if len(examples) < 3:
+                examples.append(trace[:40])
+    hyp_run(ctx, 'c20.real_traces', c07.case_strategy(False), body, n_machines, shrink=False)
+    ctx.extra['traces_validated_against_impl'] = accepted
+    ctx.extra['real_traces_outside_automaton'] = rejected
+    if examples:
+        ctx.extra['real_traces_outside_automaton_examples'] = examples
